@@ -94,6 +94,9 @@ class Face(ElementBase):
 
     def project_edge(self, corner: int, label: ProjectToType) -> None:
         """Adds a Project edge or add the label to an existing one"""
+        if corner < 0 or corner > 3:
+            raise FaceCreationError("Provide a corner index between 0 and 3", f"Given corner index: {corner}")
+
         edge = self.edges[corner]
 
         if isinstance(edge, Project):
